@@ -1,3 +1,299 @@
-import Flowdyn.Model.Integrators
+/-
+C07 / C08 — bookkeeping and purity of the driver state machine `Flowdyn/Model/Driver.lean`.
+
+`adv` is one full step of the trajectory: `(σ, time, data) ↦ step σ dt time data` with
+`dt = calcDt time data` (the array with `dtlocal`, its minimum otherwise).
+Hypothesis `hkeep`: after a snapshot side step the solver state is the one before it (the repaired code
+restores the multistep memory).  Hypothesis `hstep`: a step with a scalar `a` advances the time by `a`
+(C05 `…_step`, C06 `…_time`).
+-/
+import Flowdyn.Model.Driver
+import Mathlib.Algebra.Order.Field.Basic
+import Mathlib.Logic.Function.Iterate
+import Mathlib.Tactic.Ring
+import Mathlib.Tactic.Linarith
+
 namespace Flowdyn.C07
+open Flowdyn
+variable {σ α V D : Type} [Field α] [LinearOrder α] [IsStrictOrderedRing α]
+
+/-- one full step of the trajectory -/
+def adv (c : DrvCfg σ α V D) (x : σ × α × V) : σ × α × V :=
+  let dt := c.calcDt x.2.1 x.2.2
+  c.step x.1 (if c.dtlocal then dt else c.scalar (c.minDt dt)) x.2.1 x.2.2
+
+def core (st : DrvState σ α V) : σ × α × V := (st.sol, st.time, st.data)
+
+/-! ### side steps do not touch the trajectory state -/
+theorem sideSnaps_core (c : DrvCfg σ α V D) (hkeep : ∀ s s', c.keep s s' = s) (m : α) (st : DrvState σ α V) (fuel : ℕ) :
+    core (c.sideSnaps m st fuel) = core st ∧ (c.sideSnaps m st fuel).nit = st.nit
+    ∧ (c.sideSnaps m st fuel).traj = st.traj ∧ (c.sideSnaps m st fuel).monlog = st.monlog := by
+  induction fuel generalizing st with
+  | zero => simp [DrvCfg.sideSnaps]
+  | succ n ih =>
+    rw [DrvCfg.sideSnaps]
+    split
+    · split_ifs
+      · simp only [ih]; simp [core, hkeep]
+      · simp only [ih]; simp [core]
+      · simp
+    · simp
+
+/-- every snapshot produced by side steps is stamped with a requested save time, tagged with the
+current iteration number, and was reached from the current state by a forward step `0 ≤ ts - t ≤ mindt`
+(`hpend`: the pending save times are not in the past — the invariant maintained by `skipPast` and the loop
+for an increasing save-time list) -/
+theorem sideSnaps_results (c : DrvCfg σ α V D) (hstep : ∀ s a t q, (c.step s (c.scalar a) t q).2.1 = t + a)
+    (m : α) (st : DrvState σ α V) (fuel : ℕ)
+    (hpend : ∀ j ts, st.isave ≤ j → c.tsave[j]? = some ts → st.time ≤ ts) :
+    ∃ new : List (Snap α V), (c.sideSnaps m st fuel).results = st.results ++ new
+      ∧ (c.sideSnaps m st fuel).isave = st.isave + new.length
+      ∧ ∀ k (hk : k < new.length), ∃ ts, c.tsave[st.isave + k]? = some ts ∧ (new[k]).time = ts
+          ∧ (new[k]).it = ((c.itstart + st.nit : ℕ) : Int) ∧ st.time ≤ ts ∧ ts ≤ st.time + m
+          ∧ (st.time < ts → ∃ s, (new[k]).data = (c.step s (c.scalar (ts - st.time)) st.time st.data).2.2)
+          ∧ (¬ st.time < ts → (new[k]).data = st.data) := by
+  induction fuel generalizing st with
+  | zero => exact ⟨[], by simp [DrvCfg.sideSnaps]⟩
+  | succ n ih =>
+    rw [DrvCfg.sideSnaps]
+    split
+    · rename_i ts hts
+      have htle : st.time ≤ ts := hpend _ _ le_rfl hts
+      split_ifs with h1 h2
+      · obtain ⟨new, hr, hi, hk⟩ := ih { st with
+                                           sol := c.keep st.sol (c.step st.sol (c.scalar (ts - st.time)) st.time st.data).1,
+                                           results := st.results ++ [⟨(c.step st.sol (c.scalar (ts - st.time)) st.time st.data).2.1, (c.itstart + st.nit : ℕ), (c.step st.sol (c.scalar (ts - st.time)) st.time st.data).2.2⟩],
+                                           isave := st.isave + 1 } (fun j t hj ht => hpend j t (by simp at hj; omega) ht)
+        refine ⟨(⟨(c.step st.sol (c.scalar (ts - st.time)) st.time st.data).2.1, (c.itstart + st.nit : ℕ), (c.step st.sol (c.scalar (ts - st.time)) st.time st.data).2.2⟩ : Snap α V) :: new, ?_, ?_, ?_⟩
+        · simpa using hr
+        · simp only [hi, List.length_cons]; omega
+        · intro k hk'
+          cases k with
+          | zero =>
+            refine ⟨ts, by simpa using hts, ?_, rfl, htle, h1, fun _ => ⟨st.sol, rfl⟩, fun h => absurd h2 h⟩
+            simp [hstep]
+          | succ k =>
+            obtain ⟨t, ht⟩ := hk k (by simpa using hk')
+            refine ⟨t, ?_⟩
+            simpa [Nat.add_assoc, Nat.add_comm 1 k] using ht
+      · obtain ⟨new, hr, hi, hk⟩ := ih { st with
+                                           results := st.results ++ [⟨st.time, (c.itstart + st.nit : ℕ), st.data⟩],
+                                           isave := st.isave + 1 } (fun j t hj ht => hpend j t (by simp at hj; omega) ht)
+        refine ⟨(⟨st.time, (c.itstart + st.nit : ℕ), st.data⟩ : Snap α V) :: new, ?_, ?_, ?_⟩
+        · simpa using hr
+        · simp only [hi, List.length_cons]; omega
+        · intro k hk'
+          cases k with
+          | zero =>
+            have : ts = st.time := le_antisymm (not_lt.mp h2) htle
+            refine ⟨ts, by simpa using hts, by simp [this], rfl, htle, h1, fun h => absurd h h2, fun h => rfl⟩
+          | succ k =>
+            obtain ⟨t, ht⟩ := hk k (by simpa using hk')
+            refine ⟨t, ?_⟩
+            simpa [Nat.add_assoc, Nat.add_comm 1 k] using ht
+      · exact ⟨[], by simp⟩
+    · exact ⟨[], by simp⟩
+
+/-! ### one iteration = one `adv`, counter + 1 -/
+theorem iteration_core (c : DrvCfg σ α V D) (hkeep : ∀ s s', c.keep s s' = s) (st : DrvState σ α V) :
+    core (c.iteration st) = adv c (core st) ∧ (c.iteration st).nit = st.nit + 1 := by
+  obtain ⟨h1, h2, -, -⟩ := sideSnaps_core c hkeep (c.minDt (c.calcDt st.time st.data)) st (c.tsave.length + 1)
+  simp only [core, Prod.mk.injEq] at h1
+  obtain ⟨hs, ht, hd⟩ := h1
+  have key : ∀ (P : Prop) [Decidable P] (s : DrvState σ α V) (r : List (Snap α V)),
+      core (if P then { s with results := r } else s) = core s
+      ∧ (if P then { s with results := r } else s).nit = s.nit := by
+    intro P _ s r; split <;> exact ⟨rfl, rfl⟩
+  unfold DrvCfg.iteration
+  dsimp only
+  refine ⟨(key _ _ _).1.trans ?_, (key _ _ _).2.trans ?_⟩
+  · simp [core, adv, DrvCfg.parseMonitors, hs, ht, hd]
+  · simp [DrvCfg.parseMonitors, h2]
+
+/-- the ghost trajectory records every full step: its length is `nit + 1` -/
+theorem iteration_traj (c : DrvCfg σ α V D) (hkeep : ∀ s s', c.keep s s' = s) (st : DrvState σ α V) :
+    (c.iteration st).traj = ((c.iteration st).time, (c.iteration st).data) :: st.traj := by
+  obtain ⟨-, -, h3, -⟩ := sideSnaps_core c hkeep (c.minDt (c.calcDt st.time st.data)) st (c.tsave.length + 1)
+  have key : ∀ (P : Prop) [Decidable P] (s : DrvState σ α V) (r : List (Snap α V)),
+      (if P then { s with results := r } else s).traj
+        = ((if P then { s with results := r } else s).time, (if P then { s with results := r } else s).data)
+          :: st.traj ↔ s.traj = (s.time, s.data) :: st.traj := by
+    intro P _ s r; split <;> exact Iff.rfl
+  unfold DrvCfg.iteration
+  dsimp only
+  rw [key]
+  simp [DrvCfg.parseMonitors, h3]
+
+/-! ### the loop stops at the first state satisfying a stop criterion -/
+theorem loop_stops_at_once (c : DrvCfg σ α V D) (st : DrvState σ α V) (fuel : ℕ) (h : c.checkEnd st = true) :
+    c.loop (fuel + 1) st = (st, true) := by
+  simp [DrvCfg.loop, h]
+theorem loop_continues (c : DrvCfg σ α V D) (st : DrvState σ α V) (fuel : ℕ) (h : c.checkEnd st = false) :
+    c.loop (fuel + 1) st = c.loop fuel (c.iteration st) := by
+  simp [DrvCfg.loop, h]
+theorem loop_finished_checkEnd (c : DrvCfg σ α V D) (st : DrvState σ α V) (fuel : ℕ)
+    (h : (c.loop fuel st).2 = true) : c.checkEnd (c.loop fuel st).1 = true := by
+  induction fuel generalizing st with
+  | zero => simpa [DrvCfg.loop] using h
+  | succ n ih =>
+    cases hce : c.checkEnd st with
+    | true => rw [loop_stops_at_once c st n hce]; exact hce
+    | false =>
+      rw [loop_continues c st n hce] at h ⊢
+      exact ih _ h
+
+/-- iteration counter = number of `adv` applications; with `maxit = m` only (no time criterion) the loop
+performs exactly `m - nit` iterations and terminates (enough fuel is `m - nit`) -/
+theorem loop_maxit (c : DrvCfg σ α V D) (hkeep : ∀ s s', c.keep s s' = s) (m : ℕ) (htt : c.tottime = none)
+    (hmi : c.maxit = some m) (st : DrvState σ α V) (hn : st.nit ≤ m) (fuel : ℕ) (hf : m - st.nit ≤ fuel) :
+    (c.loop fuel st).2 = true ∧ (c.loop fuel st).1.nit = m
+    ∧ core (c.loop fuel st).1 = (adv c)^[m - st.nit] (core st) := by
+  have hce : ∀ st : DrvState σ α V, c.checkEnd st = decide (m ≤ st.nit) := by
+    intro st; simp [DrvCfg.checkEnd, htt, hmi]
+  induction fuel generalizing st with
+  | zero =>
+    have : st.nit = m := by omega
+    simp [DrvCfg.loop, hce, this]
+  | succ n ih =>
+    by_cases hm : m ≤ st.nit
+    · have : st.nit = m := by omega
+      rw [loop_stops_at_once c st n (by simp [hce, hm])]
+      simp [this]
+    · rw [loop_continues c st n (by simp [hce, hm])]
+      obtain ⟨hc, hnit⟩ := iteration_core c hkeep st
+      obtain ⟨h1, h2, h3⟩ := ih (c.iteration st) (by omega) (by omega)
+      refine ⟨h1, h2, ?_⟩
+      rw [h3, hnit, hc, ← Function.iterate_succ_apply]
+      congr 2; omega
+
+/-- general form: whatever the criteria, the final state is `adv` iterated `nit' - nit` times -/
+theorem loop_core (c : DrvCfg σ α V D) (hkeep : ∀ s s', c.keep s s' = s) (st : DrvState σ α V) (fuel : ℕ) :
+    st.nit ≤ (c.loop fuel st).1.nit
+    ∧ core (c.loop fuel st).1 = (adv c)^[(c.loop fuel st).1.nit - st.nit] (core st) := by
+  induction fuel generalizing st with
+  | zero => simp [DrvCfg.loop]
+  | succ n ih =>
+    cases hce : c.checkEnd st with
+    | true => rw [loop_stops_at_once c st n hce]; simp
+    | false =>
+      rw [loop_continues c st n hce]
+      obtain ⟨hc, hnit⟩ := iteration_core c hkeep st
+      obtain ⟨h1, h2⟩ := ih (c.iteration st)
+      refine ⟨by omega, ?_⟩
+      rw [h2, hnit, hc, ← Function.iterate_succ_apply]
+      congr 2; omega
+
+/-! ### C08: the trajectory does not depend on save times or monitors -/
+/-- two configurations that differ only in `tsave` and `monitors` -/
+def SameProblem (c c' : DrvCfg σ α V D) : Prop :=
+  c.step = c'.step ∧ c.keep = c'.keep ∧ c.calcDt = c'.calcDt ∧ c.minDt = c'.minDt ∧ c.scalar = c'.scalar
+  ∧ c.dtlocal = c'.dtlocal ∧ c.tottime = c'.tottime ∧ c.maxit = c'.maxit
+
+theorem adv_congr (c c' : DrvCfg σ α V D) (h : SameProblem c c') : adv c = adv c' := by
+  obtain ⟨h1, -, h3, h4, h5, h6, -, -⟩ := h
+  funext x
+  simp only [adv, h1, h3, h4, h5, h6]
+
+theorem checkEnd_congr (c c' : DrvCfg σ α V D) (h : SameProblem c c') (st st' : DrvState σ α V)
+    (hc : core st = core st') (hn : st.nit = st'.nit) : c.checkEnd st = c'.checkEnd st' := by
+  obtain ⟨-, -, -, -, -, -, h7, h8⟩ := h
+  simp only [core, Prod.mk.injEq] at hc
+  simp only [DrvCfg.checkEnd, h7, h8, hc.2.1, hn]
+
+theorem loop_indep_of_saves_and_monitors (c c' : DrvCfg σ α V D) (h : SameProblem c c')
+    (hkeep : ∀ s s', c.keep s s' = s) (st st' : DrvState σ α V) (hc : core st = core st') (hn : st.nit = st'.nit)
+    (fuel : ℕ) :
+    core (c.loop fuel st).1 = core (c'.loop fuel st').1 ∧ (c.loop fuel st).1.nit = (c'.loop fuel st').1.nit
+    ∧ (c.loop fuel st).2 = (c'.loop fuel st').2 := by
+  have hkeep' : ∀ s s', c'.keep s s' = s := by
+    intro s s'; rw [← h.2.1]; exact hkeep s s'
+  induction fuel generalizing st st' with
+  | zero => exact ⟨hc, hn, checkEnd_congr c c' h st st' hc hn⟩
+  | succ n ih =>
+    have hE := checkEnd_congr c c' h st st' hc hn
+    cases hce : c.checkEnd st with
+    | true =>
+      rw [loop_stops_at_once c st n hce, loop_stops_at_once c' st' n (hE ▸ hce)]
+      exact ⟨hc, hn, rfl⟩
+    | false =>
+      rw [loop_continues c st n hce, loop_continues c' st' n (hE ▸ hce)]
+      obtain ⟨a1, a2⟩ := iteration_core c hkeep st
+      obtain ⟨b1, b2⟩ := iteration_core c' hkeep' st'
+      exact ih _ _ (by rw [a1, b1, hc, adv_congr c c' h]) (by rw [a2, b2, hn])
+
+theorem initialSnaps_core (c : DrvCfg σ α V D) (st : DrvState σ α V) (fuel : ℕ) :
+    core (c.initialSnaps st fuel) = core st ∧ (c.initialSnaps st fuel).nit = st.nit := by
+  induction fuel generalizing st with
+  | zero => simp [DrvCfg.initialSnaps]
+  | succ n ih =>
+    rw [DrvCfg.initialSnaps]
+    split
+    · split_ifs
+      · simp only [ih]; simp [core]
+      · simp
+    · simp
+
+theorem run_start (c : DrvCfg σ α V D) (fuel : ℕ) (s0 : σ) (t0 : α) (q0 : V) :
+    ∃ st0 : DrvState σ α V, core st0 = (s0, t0, q0) ∧ st0.nit = 0 ∧ c.run fuel s0 t0 q0 = c.loop fuel st0 := by
+  unfold DrvCfg.run
+  dsimp only
+  refine ⟨_, ?_, ?_, rfl⟩
+  · rw [(initialSnaps_core c _ _).1]; simp [core, DrvCfg.parseMonitors]
+  · rw [(initialSnaps_core c _ _).2]; simp [DrvCfg.parseMonitors]
+
+theorem run_indep_of_saves_and_monitors (c c' : DrvCfg σ α V D) (h : SameProblem c c')
+    (hkeep : ∀ s s', c.keep s s' = s) (fuel : ℕ) (s0 : σ) (t0 : α) (q0 : V) :
+    core (c.run fuel s0 t0 q0).1 = core (c'.run fuel s0 t0 q0).1
+    ∧ (c.run fuel s0 t0 q0).1.nit = (c'.run fuel s0 t0 q0).1.nit := by
+  obtain ⟨st, a1, a2, a3⟩ := run_start c fuel s0 t0 q0
+  obtain ⟨st', b1, b2, b3⟩ := run_start c' fuel s0 t0 q0
+  rw [a3, b3]
+  obtain ⟨r1, r2, -⟩ := loop_indep_of_saves_and_monitors c c' h hkeep st st' (a1.trans b1.symm) (a2.trans b2.symm) fuel
+  exact ⟨r1, r2⟩
+
+/-- the initial phase of `run` does not move the state -/
+theorem run_eq_loop_core (c : DrvCfg σ α V D) (hkeep : ∀ s s', c.keep s s' = s) (fuel : ℕ) (s0 : σ) (t0 : α) (q0 : V) :
+    ∃ st0 : DrvState σ α V, core st0 = (s0, t0, q0) ∧ st0.nit = 0 ∧ c.run fuel s0 t0 q0 = c.loop fuel st0 :=
+  run_start c fuel s0 t0 q0
+
+/-- **restart**: `N` iterations, then `M` more from the returned state (same solver object, hidden state
+kept), reach the state, time and cumulative iteration count of a single run of `N + M` -/
+theorem restart_split (c : DrvCfg σ α V D) (hkeep : ∀ s s', c.keep s s' = s) (htt : c.tottime = none)
+    (N M : ℕ) (s0 : σ) (t0 : α) (q0 : V) :
+    (let c1 := { c with maxit := some N }
+     let r1 := (c1.run N s0 t0 q0).1
+     let c2 := { c with maxit := some M, itstart := c.itstart + N }
+     let r2 := (c2.run M r1.sol r1.time r1.data).1
+     let cc := { c with maxit := some (N + M) }
+     let rr := (cc.run (N + M) s0 t0 q0).1
+     core r2 = core rr ∧ c2.itstart + r2.nit = cc.itstart + rr.nit ∧ rr.nit = N + M) := by
+  intro c1 r1 c2 r2 cc rr
+  have e1 : adv c1 = adv c := rfl
+  have e2 : adv c2 = adv c := rfl
+  have e3 : adv cc = adv c := rfl
+  obtain ⟨st1, a1, a2, a3⟩ := run_eq_loop_core c1 hkeep N s0 t0 q0
+  obtain ⟨-, a4, a5⟩ := loop_maxit c1 hkeep N htt rfl st1 (by omega) N (by omega)
+  have hr1 : core r1 = (adv c)^[N] (s0, t0, q0) := by
+    show core (c1.run N s0 t0 q0).1 = _
+    rw [a3, a5, a2, a1, e1]; rfl
+  obtain ⟨st2, b1, b2, b3⟩ := run_eq_loop_core c2 hkeep M r1.sol r1.time r1.data
+  obtain ⟨-, b4, b5⟩ := loop_maxit c2 hkeep M htt rfl st2 (by omega) M (by omega)
+  have hr2 : core r2 = (adv c)^[M] (core r1) := by
+    show core (c2.run M r1.sol r1.time r1.data).1 = _
+    rw [b3, b5, b2, b1, e2]; rfl
+  have hn2 : r2.nit = M := by
+    show (c2.run M r1.sol r1.time r1.data).1.nit = _
+    rw [b3, b4]
+  obtain ⟨st3, d1, d2, d3⟩ := run_eq_loop_core cc hkeep (N + M) s0 t0 q0
+  obtain ⟨-, d4, d5⟩ := loop_maxit cc hkeep (N + M) htt rfl st3 (by omega) (N + M) (by omega)
+  have hrr : core rr = (adv c)^[N + M] (s0, t0, q0) := by
+    show core (cc.run (N + M) s0 t0 q0).1 = _
+    rw [d3, d5, d2, d1, e3]; rfl
+  have hnr : rr.nit = N + M := by
+    show (cc.run (N + M) s0 t0 q0).1.nit = _
+    rw [d3, d4]
+  refine ⟨?_, ?_, hnr⟩
+  · rw [hr2, hr1, hrr, Nat.add_comm N M, Function.iterate_add_apply]
+  · rw [hn2, hnr]; show c.itstart + N + M = c.itstart + (N + M); omega
+
 end Flowdyn.C07
